@@ -643,6 +643,15 @@ def _called_lambda(cx: Ctx, env, ty, depth):
             # some of the leading parameters are positional-only (declared before `/`); the defaults belong to the LAST parameters
             # of positional-only + ordinary ones together
             params.insert(cx.int_(1, n - 1), "/")
+        if cx.chance(5):
+            # the defaulted parameter is GIVEN at the call all the same (by position or by keyword): the given value counts
+            last = args[-1]
+            if (ty == F and tys[-1] in (I, F)) or (ty == I and tys[-1] == I):
+                # ... and it shows in the result: the body uses the parameter, the given value differs from the default
+                body = f"({body} + {names[-1]})"
+                last = f"({dflt} + 1)" if cx.chance(5) else f"({last} + 1)"
+            given = args[:-1] + [last] if cx.chance(5) else args[:-1] + [f"{names[-1]}={last}"]
+            return f"(lambda {', '.join(params)}: {body})({', '.join(given)})"
         return f"(lambda {', '.join(params)}: {body})({', '.join(args[:-1])})"
     if cx.cfg.keywords_in_called and cx.cfg.kwonly_in_called and cx.chance(2):
         # keyword-only parameters (the last one possibly defaulted and omitted by the call)
